@@ -116,6 +116,59 @@ def run(ctx):
                               f"{sig.split(':')[1]}.jsonl", seq_op(ref_i) + "\n" + seq_op(i) + "\n")
     ctx.oblige("oracle:all-arrival-orders-agree(impl)", oracle_bad == 0, f"{oracle_bad} disagreeing sequences")
 
+    # ---- further clauses of the property, evaluated on the implementation's outputs alone
+    def probe(line, did, label):
+        head, *table = line.split(" || ")
+        tab = {}
+        for t in table:
+            k, _, v = t.partition("=")
+            tab[k] = v
+        seg = head.split(" | ")
+        in_did = False
+        for x in seg:
+            if x.startswith("DID "):
+                in_did = (x[4:] == did)
+            elif in_did and x.startswith(label):
+                return tab.get(x[len(label):], x)
+            elif in_did and label == "conflicted=" and x.startswith("conflicted="):
+                return x[len("conflicted="):]
+        return None
+    clause_bad = Counter()
+    for i, line in enumerate(impl):
+        op = json.loads(ops[i]) if i < len(ops) and ops[i] else {}
+        if op.get("op") != "seq":
+            continue
+        if "adderr@" in line:
+            clause_bad["add-refused"] += 1
+            if clause_bad["add-refused"] == 1:
+                ctx.violation("C10:add-of-accepted-transaction-fails-in-some-arrival-order", f"store.Add returned an error for a valid event (line {i}): {line[:80]}",
+                              "add-refused.jsonl", ops[i])
+        per = {}
+        for e in op["events"]:
+            per.setdefault(e["doc"]["id"], []).append(e)
+        for did, evs in per.items():
+            # (b) a deactivated DID never resolves as active again
+            deact = [e for e in evs if not e["doc"]["f"].get("Controller") and not e["doc"]["f"].get("CapabilityInvocation")]
+            if deact:
+                r = probe(line, did, "nil:")
+                if r is not None and not r.startswith("err:deactivated"):
+                    clause_bad["deactivated-resolves-active"] += 1
+                    if clause_bad["deactivated-resolves-active"] == 1:
+                        ctx.violation("C10:deactivated-did-resolves-as-active", f"event set {op['set']} holds a deactivation of {did} but Resolve(nil) answers {r[:60]} (line {i})",
+                                      "deactivated-resolves-active.jsonl", ops[i])
+            # (c) a later update that references all branches resolves the conflict
+            refs = {e["ref"] for e in evs}
+            top = max(evs, key=lambda e: (e["clock"], e["time"], e["ref"]))
+            if len(evs) > 1 and set(top["prevs"]) >= (refs - {top["ref"]}) and all(e["clock"] < top["clock"] for e in evs if e is not top):
+                c = probe(line, did, "conflicted=")
+                if c == "true":
+                    clause_bad["covering-update-still-conflicted"] += 1
+                    if clause_bad["covering-update-still-conflicted"] == 1:
+                        ctx.violation("C10:covering-update-does-not-resolve-conflict", f"event set {op['set']}: last update references all other transactions of {did} but the DID is still conflicted (line {i})",
+                                      "covering-update-still-conflicted.jsonl", ops[i])
+    ctx.oblige("oracle:deactivated-never-active/covering-update-resolves/add-never-refused(impl)", not clause_bad, str(dict(clause_bad)))
+    oracle_bad += sum(clause_bad.values())
+
     # ---- correspondence model vs implementation
     if bad:
         i = bad[0]
